@@ -51,7 +51,7 @@ ASSUMPTIONS = {
 EXPECTED_PROBES = {
     'C06': ['interrupted_nonsquare_R', 'budget_inside_first_batch', 'conv_fired', 'maxvol_iteration_limit',
             'stop_m', 'stop_func', 'stop_cb', 'stop_e', 'stop_e_vld', 'stop_nswp', 'pre_iteration_stop',
-            'valueerror_rejected', 'long_run_over_100_sweeps'],
+            'valueerror_rejected', 'long_run_over_100_sweeps', 'unreached_e_vld_twin'],
     'C05': ['restart_all_from_cache_conv', 'reproduction_checked', 'transparency_bitwise', 'foreign_cache', 'unobserved_run',
             'crash_none', 'crash_m', 'crash_cb', 'crash_raise', 'liveness_checked', 'reproduction_checked_at_interruption'],
 }
@@ -636,6 +636,25 @@ def argcombo_runs(scen, world, V, stats):
                 continue
             st = {}
             check_direct(o, c2, plan, 'none', n, V, st, tag)
+    # a validation threshold that is out of reach (noisy validation values) does not switch the other criteria off: the run with e
+    # and that e_vld ends where the run with e alone ends, with the same tensor
+    yn2 = yv + 0.05 * (1.0 + np.abs(yv)) * gen(scen['combo_seed'] + 23).standard_normal(len(yv))
+    e_thr = [1e-2, 1e-5, 1e-9][scen['combo_seed'] % 3]
+    ca = dict(cfg, e=e_thr, nswp=None, e_vld=None, log=False)
+    cb_ = dict(cfg, e=e_thr, nswp=None, e_vld=1e-12, log=False)
+    pa = {'m': None, 'cb_at': 30, 'args': {'e': e_thr}}
+    pb = {'m': None, 'cb_at': 30, 'args': {'e': e_thr, 'e_vld': 1e-12, 'validation_values': 'noisy'}}
+    oa = run_once(ca, world, pa, stop_args={'I_vld': Iv, 'y_vld': yn2}, keep_tensors=False)
+    ob = run_once(cb_, world, pb, stop_args={'I_vld': Iv, 'y_vld': yn2}, keep_tensors=False)
+    runs += 2
+    if oa.Y is not None and ob.Y is not None:
+        stats['probe.unreached_e_vld_twin'] = stats.get('probe.unreached_e_vld_twin', 0) + 1
+        if (oa.info.get('stop'), oa.info.get('nswp')) != (ob.info.get('stop'), ob.info.get('nswp')) \
+                or [G.tobytes() for G in oa.Y] != [G.tobytes() for G in ob.Y]:
+            V.append(viol('C06', 'stop-e', 'e=%g with an e_vld that is never reached: stop=%r after %r sweeps; the same run without e_vld: stop=%r after %r sweeps'
+                          % (e_thr, ob.info.get('stop'), ob.info.get('nswp'), oa.info.get('stop'), oa.info.get('nswp')), pb))
+    elif (oa.Y is None) != (ob.Y is None):
+        V.append(viol('C06', 'exception', 'e with an unreached e_vld: %r / without e_vld: %r' % (ob.exc, oa.exc), pb))
     if scen['combo_seed'] % 3 == 0:
         # a run that no sweep count limits (validation threshold out of reach: the validation values are noisy) goes on until the
         # callback ends it, however late that is
@@ -796,6 +815,16 @@ def check_info_truth(o, world, Ypre, V, tag, stats):
             V.append(viol(P, 'info-e', '%s: info[e]=%r but the distance of the returned tensor to the previous sweep is %r (stop=%s, sweeps=%d)'
                           % (tag, got, ref, stop, nsw)))
         stats['probe.info_e_checked'] = stats.get('probe.info_e_checked', 0) + 1
+    # what the callback is handed as "tensor of the previous sweep" is that tensor: bit for bit the tensor it saw one sweep earlier
+    for s_ in range(1, nsw):
+        a_, b_ = o.mon.snaps[s_].get('Yold'), o.mon.snaps[s_ - 1].get('Y')
+        if a_ is None or b_ is None:
+            continue
+        stats['probe.callback_yold_checked'] = stats.get('probe.callback_yold_checked', 0) + 1
+        if len(a_) != len(b_) or any(x.shape != y_.shape or x.tobytes() != y_.tobytes() for x, y_ in zip(a_, b_)):
+            V.append(viol(P, 'callback-yold', '%s: opts[Yold] handed to the callback after sweep %d is not the tensor the callback saw after sweep %d'
+                          % (tag, s_ + 1, s_)))
+            break
 
 
 def execute_incarnations(scen):
